@@ -54,6 +54,14 @@ pub trait ExRead {
                 && vx_consumed(final(self)) == vx_consumed(old(self)) + old(buf)@.len(),
             (match r { Err(e) => vx_is_eof(&e), Ok(_) => true });
 }
+#[verifier::external_trait_specification]
+pub trait ExBufRead: std::io::Read {
+    type ExternalTraitSpecificationFor: std::io::BufRead;
+    /// ASSUMED: never fails; consumes nothing; returns a non-empty chunk of the unread bytes unless none are left
+    fn fill_buf(&mut self) -> (r: std::io::Result<&[u8]>)
+        ensures r is Ok, vx_unread(final(self)) == vx_unread(old(self)), vx_consumed(final(self)) == vx_consumed(old(self)),
+            (match r { Ok(b) => (b@.len() == 0) == (vx_unread(old(self)).len() == 0) && b@.len() <= vx_unread(old(self)).len(), Err(_) => true });
+}
 }
 verus! {
 // `?` from io::Result into anyhow::Result (message dropped, R4/R7)
